@@ -43,6 +43,219 @@ def spec_compress256(B, h, mbytes, K):
     return [B.add(x, y) for x, y in zip(h, [a, b, c, d, e, f, g, hh])]
 
 
+def spec_compress512(B, h, mbytes, K):
+    w = [simd.cat(mbytes[8 * i: 8 * i + 8][::-1]) for i in range(16)]
+
+    def s0(x):
+        return B.xor(B.xor(B.rotr(x, 1), B.rotr(x, 8)), B.shr(x, 7))
+
+    def s1(x):
+        return B.xor(B.xor(B.rotr(x, 19), B.rotr(x, 61)), B.shr(x, 6))
+
+    def S0(x):
+        return B.xor(B.xor(B.rotr(x, 28), B.rotr(x, 34)), B.rotr(x, 39))
+
+    def S1(x):
+        return B.xor(B.xor(B.rotr(x, 14), B.rotr(x, 18)), B.rotr(x, 41))
+    for t in range(16, 80):
+        w.append(B.add(B.add(s1(w[t - 2]), w[t - 7]), B.add(s0(w[t - 15]), w[t - 16])))
+    a, b, c, d, e, f, g, hh = h
+    for t in range(80):
+        ch = B.xor(B.and_(e, f), B.andnot(e, g))
+        maj = B.xor(B.xor(B.and_(a, b), B.and_(a, c)), B.and_(b, c))
+        t1 = B.add(B.add(B.add(hh, S1(e)), B.add(ch, B.const(K[t], 64))), w[t])
+        t2 = B.add(S0(a), maj)
+        hh, g, f, e, d, c, b, a = g, f, e, B.add(d, t1), c, b, a, B.add(t1, t2)
+    return [B.add(x, y) for x, y in zip(h, [a, b, c, d, e, f, g, hh])]
+
+
+def spec_sha1(B, h, mbytes):
+    w = [simd.cat(mbytes[4 * i: 4 * i + 4][::-1]) for i in range(16)]
+    for t in range(16, 80):
+        w.append(B.rotl(B.xor(B.xor(w[t - 3], w[t - 8]), B.xor(w[t - 14], w[t - 16])), 1))
+    a, b, c, d, e = h
+    Kc = hashes.SHA1_K
+    for t in range(80):
+        if t < 20:
+            f = B.xor(B.and_(b, c), B.andnot(b, d))
+        elif t < 40 or t >= 60:
+            f = B.xor(B.xor(b, c), d)
+        else:
+            f = B.xor(B.xor(B.and_(b, c), B.and_(b, d)), B.and_(c, d))
+        tmp = B.add(B.add(B.add(B.rotl(a, 5), f), B.add(e, B.const(Kc[t // 20], 32))), w[t])
+        e, d, c, b, a = d, c, B.rotl(b, 30), a, tmp
+    return [B.add(x, y) for x, y in zip(h, [a, b, c, d, e])]
+
+
+RMD_R = [list(range(16)), [7, 4, 13, 1, 10, 6, 15, 3, 12, 0, 9, 5, 2, 14, 11, 8], [3, 10, 14, 4, 9, 15, 8, 1, 2, 7, 0, 6, 13, 11, 5, 12], [1, 9, 11, 10, 0, 8, 12, 4, 13, 3, 7, 15, 14, 5, 6, 2], [4, 0, 5, 9, 7, 12, 2, 10, 14, 1, 3, 8, 11, 6, 15, 13]]
+RMD_RP = [[5, 14, 7, 0, 9, 2, 11, 4, 13, 6, 15, 8, 1, 10, 3, 12], [6, 11, 3, 7, 0, 13, 5, 10, 14, 15, 8, 12, 4, 9, 1, 2], [15, 5, 1, 3, 7, 14, 6, 9, 11, 8, 12, 2, 10, 0, 4, 13], [8, 6, 4, 1, 3, 11, 15, 0, 5, 12, 2, 13, 9, 7, 10, 14], [12, 15, 10, 4, 1, 5, 8, 7, 6, 2, 13, 14, 0, 3, 9, 11]]
+RMD_S = [[11, 14, 15, 12, 5, 8, 7, 9, 11, 13, 14, 15, 6, 7, 9, 8], [7, 6, 8, 13, 11, 9, 7, 15, 7, 12, 15, 9, 11, 7, 13, 12], [11, 13, 6, 7, 14, 9, 13, 15, 14, 8, 13, 6, 5, 12, 7, 5], [11, 12, 14, 15, 14, 15, 9, 8, 9, 14, 5, 6, 8, 6, 5, 12], [9, 15, 5, 11, 6, 8, 13, 12, 5, 12, 13, 14, 11, 8, 5, 6]]
+RMD_SP = [[8, 9, 9, 11, 13, 15, 15, 5, 7, 7, 8, 11, 14, 14, 12, 6], [9, 13, 15, 7, 12, 8, 9, 11, 7, 7, 12, 7, 6, 15, 13, 11], [9, 7, 15, 11, 8, 6, 6, 14, 12, 13, 5, 14, 13, 13, 7, 5], [15, 5, 8, 11, 14, 14, 6, 14, 6, 9, 12, 9, 12, 5, 15, 8], [8, 5, 12, 9, 12, 5, 14, 6, 8, 13, 6, 5, 15, 13, 11, 11]]
+
+
+def spec_ripemd160(B, h, mbytes):
+    x = [simd.cat(mbytes[4 * i: 4 * i + 4]) for i in range(16)]
+
+    def f(j, a, b, c):
+        if j == 0:
+            return B.xor(B.xor(a, b), c)
+        if j == 1:
+            return B.xor(B.and_(a, b), B.andnot(a, c))
+        if j == 2:
+            return B.xor(B.or_(a, B.not_(b)), c)
+        if j == 3:
+            return B.xor(B.and_(a, c), B.andnot(c, b))
+        return B.xor(a, B.or_(b, B.not_(c)))
+    al, bl, cl, dl, el = h
+    ar, br, cr, dr, er = h
+    for j in range(80):
+        r = j // 16
+        t = B.add(B.rotl(B.add(B.add(al, f(r, bl, cl, dl)), B.add(x[RMD_R[r][j % 16]], B.const(hashes.RMD_KL[r], 32))), RMD_S[r][j % 16]), el)
+        al, el, dl, cl, bl = el, dl, B.rotl(cl, 10), bl, t
+        t = B.add(B.rotl(B.add(B.add(ar, f(4 - r, br, cr, dr)), B.add(x[RMD_RP[r][j % 16]], B.const(hashes.RMD_KR[r], 32))), RMD_SP[r][j % 16]), er)
+        ar, er, dr, cr, br = er, dr, B.rotl(cr, 10), br, t
+    t = B.add(B.add(h[1], cl), dr)
+    return [t, B.add(B.add(h[2], dl), er), B.add(B.add(h[3], el), ar), B.add(B.add(h[4], al), br), B.add(B.add(h[0], bl), cr)]
+
+
+def spec_keccak_f(B, lanes):
+    """FIPS 202 Keccak-f[1600] on 25 lanes (index x + 5y): theta, rho, pi, chi, iota for 24 rounds"""
+    A = list(lanes)
+    rc = hashes.KECCAK_RC
+    for rnd in range(24):
+        C = [B.xor(B.xor(B.xor(A[x], A[x + 5]), B.xor(A[x + 10], A[x + 15])), A[x + 20]) for x in range(5)]
+        D = [B.xor(C[(x + 4) % 5], B.rotl(C[(x + 1) % 5], 1)) for x in range(5)]
+        A = [B.xor(A[i], D[i % 5]) for i in range(25)]
+        # rho and pi:  B[y][2x+3y] = rot(A[x][y], r[x][y])
+        Bn = [None] * 25
+        Bn[0] = A[0]
+        x, y = 1, 0
+        for t in range(24):
+            r = ((t + 1) * (t + 2) // 2) % 64
+            nx, ny = y, (2 * x + 3 * y) % 5
+            Bn[nx + 5 * ny] = B.rotl(A[x + 5 * y], r)
+            x, y = nx, ny
+        A = [B.xor(Bn[x + 5 * y], B.andnot(Bn[(x + 1) % 5 + 5 * y], Bn[(x + 2) % 5 + 5 * y])) for y in range(5) for x in range(5)]
+        A[0] = B.xor(A[0], B.const(rc[rnd], 64))
+    return A
+
+
+def _one_keccak(job):
+    cfg, path = job
+    try:
+        P = _prog(cfg)
+    except Exception as e:
+        return (path, "noprog", str(e)[:200], 0, None)
+    fn = P.fn_opt(path)
+    if fn is None:
+        return (path, "lost", None, 0, None)
+    B = simd.TermBank()
+    by = [B.inp("s[%d]" % i, 8) for i in range(200)]
+    st = Box({i: by[i] for i in range(200)})
+    M = simd.Machine(P, B, 64, {}, maxsteps=8000000)
+    try:
+        M.call_fn(fn, [st.ref()])
+        out = [M.scalar_bits(st.v[i], 8) for i in range(200)]
+    except (simd.Unsupported, KeyError, IndexError, TypeError, AttributeError, ValueError) as e:
+        return (path, "eval", "%s: %s" % (type(e).__name__, str(e)[:200]), 0, fn.where())
+    lanes = [simd.cat(by[8 * i: 8 * i + 8]) for i in range(25)]
+    spec = spec_keccak_f(B, lanes)
+    sb = []
+    for l in spec:
+        sb += simd.lanes(l, 8)
+    bad = sorted({i // 8 for i in range(200) if out[i] != sb[i]})
+    return (path, "done", bad, len(B.defs), fn.where())
+
+
+def check_keccak(ctx, progs, rule="compress-eq"):
+    path = "hashing::sha3::keccak_f"
+    if "K0" not in progs:
+        return 0
+    import concurrent.futures
+    with concurrent.futures.ProcessPoolExecutor(max_workers=1) as ex:
+        res = list(ex.map(_one_keccak, [("K0", path)]))[0]
+    path, status, x, nnodes, where = res
+    key = "%s:%s" % (rule, path)
+    if status == "lost":
+        ctx.lost(rule, path, "function not present")
+        return 0
+    if status in ("noprog", "eval"):
+        ctx.fail(rule, path, "%s could not be evaluated to a value graph (%s)" % (path, x), where=where, key=key + ":eval")
+        return 0
+    ctx.check(not x, rule, path, "keccak_f == FIPS 202 Keccak-f[1600] (24 rounds of theta, rho, pi, chi, iota) on all 25 lanes as value graphs (%d graph nodes)" % nnodes,
+              "%s is not Keccak-f[1600]: lanes %s differ from the specification" % (path, x), where=where, key=key)
+    return 1
+
+
+OTHER = [
+    # (configuration, function, word width, state words, block bytes, spec, argument order: state first?)
+    ("K0", "hashing::sha2::impl512::reference::digest_block", 64, 8, 128, "sha512", True),
+    ("K0", "hashing::sha1::digest_blocks", 32, 5, 64, "sha1", True),
+    ("K0", "hashing::ripemd160::process_msg_blocks", 32, 5, 64, "ripemd160", False),
+]
+
+
+def _one_other(job):
+    cfg, path, w, nst, bb, which, state_first, nb = job
+    try:
+        P = _prog(cfg)
+    except Exception as e:
+        return (path, nb, "noprog", str(e)[:200], None, 0, None)
+    fn = P.fn_opt(path)
+    if fn is None:
+        return (path, nb, "lost", None, None, 0, None)
+    B = simd.TermBank()
+    h = [B.inp("h[%d]" % i, w) for i in range(nst)]
+    by = [B.inp("m[%d]" % i, 8) for i in range(bb * nb)]
+    st = Box({i: h[i] for i in range(nst)})
+    cont = {i: by[i] for i in range(bb * nb)}
+    M = simd.Machine(P, B, w, {}, maxsteps=8000000)
+    msg = ("aslice", cont, 0, bb * nb)
+    try:
+        M.call_fn(fn, [st.ref(), msg] if state_first else [msg, st.ref()])
+        out = [M.scalar_bits(st.v[i], w) for i in range(nst)]
+    except (simd.Unsupported, KeyError, IndexError, TypeError, AttributeError, ValueError) as e:
+        return (path, nb, "eval", "%s: %s" % (type(e).__name__, str(e)[:200]), None, 0, fn.where())
+    spec = h
+    for j in range(nb):
+        blk = by[bb * j: bb * j + bb]
+        if which == "sha512":
+            spec = spec_compress512(B, spec, blk, hashes.K64)
+        elif which == "sha1":
+            spec = spec_sha1(B, spec, blk)
+        else:
+            spec = spec_ripemd160(B, spec, blk)
+    bad = [i for i in range(nst) if out[i] != spec[i]]
+    wrote = any(cont[i] is not by[i] for i in range(bb * nb))
+    return (path, nb, "done", bad, wrote, len(B.defs), fn.where())
+
+
+def check_other(ctx, progs, rule="compress-eq", blocks=(1, 2), only=None):
+    """SHA-512, SHA-1 and RIPEMD-160 block functions of the default build against their specifications"""
+    import concurrent.futures
+    import os
+    jobs = [(cfg, path, w, nst, bb, which, sf, nb) for (cfg, path, w, nst, bb, which, sf) in OTHER if cfg in progs and (only is None or which in only) for nb in blocks]
+    if not jobs:
+        return 0
+    with concurrent.futures.ProcessPoolExecutor(max_workers=min(len(jobs), max(1, (os.cpu_count() or 2) - 1))) as ex:
+        results = list(ex.map(_one_other, jobs))
+    n = 0
+    for path, nb, status, x, wrote, nnodes, where in sorted(results, key=lambda r: (r[0], r[1])):
+        inst = "%s:%d-blocks" % (path, nb)
+        key = "%s:%s:%d" % (rule, path, nb)
+        if status == "lost":
+            ctx.lost(rule, path, "function not present")
+        elif status == "noprog":
+            ctx.fail(rule, inst, "configuration could not be analysed: %s" % x, key=key + ":noprog")
+        elif status == "eval":
+            ctx.fail(rule, inst, "%s could not be evaluated to a value graph for a run of %d blocks (%s): it panics, reads outside the run or uses a construct the evaluator does not model" % (path, nb, x), where=where, key=key + ":eval")
+        else:
+            n += 1
+            ctx.check(not x and not wrote, rule, inst, "state' == the specified compression function over %d consecutive blocks as value graphs (%d graph nodes)" % (nb, nnodes),
+                      "%s does not compute its specified compression function over a run of %d blocks: state words %s differ%s" % (path, nb, x, "; the message buffer is modified" if wrote else ""), where=where, key=key)
+    return n
+
+
 CASES = [
     # (configuration, function, block counts in the quick tier, additional block counts in the thorough tier)
     ("K0", "hashing::sha2::impl256::reference::digest_block", (1, 2), ()),
